@@ -637,7 +637,12 @@ func genChf(o genOpts, w *bufio.Writer) {
 				if o.mode == "names" {
 					nf = r.pickStr("a1", "a", "", "1", "10", "-1", "a-1", "-", "smf-0", "0")
 				}
-				fmt.Fprintf(w, "chf create %s\n", fmtReq(supi, nf, 100+k, 0, 1, 0, nil, nil))
+				// a subscriber's first session registers the notification address; a later one may come without an address of its own
+				uriTok := 1
+				if k > 0 && o.mode != "names" {
+					uriTok = r.pick(1, 0, 0)
+				}
+				fmt.Fprintf(w, "chf create %s\n", fmtReq(supi, nf, 100+k, 0, uriTok, 0, nil, nil))
 				sess = append(sess, &genSess{supi: supi, nf: nf, sid: supi + nf + "-" + strconv.Itoa(counter), lastGrant: map[int]int{}, live: true})
 				counter++
 				done++
